@@ -226,14 +226,25 @@ def run(scn):
     wnb, pnb = wdw // 8, pdw // 8
     base = d.get("base", 0)
     paw = d.get("paw", 16)
-    port = LiteDRAMNativePort("both", paw, pdw)
     bus = wb.Interface(data_width=wdw, adr_width=30, addressing="word")
-    dut = LiteDRAMWishbone2Native(bus, port, base_address=base)
-    sim = Sim(dut, {"sys": 10000})
-    viol = Violations(sim)
     m = scn["mem"]
-    mem = NativeMemSlave(sim, port, cmd_ready=m.get("cmd_ready"), max_out=m.get("max_out", 8), wl1=m.get("wl1", 1),
-                         rl1=m.get("rl1", 3), extra=m.get("extra"), viol=None)
+    core = scn.get("core")
+    if core:
+        from ..corebench import core_host, CorePortView
+
+        def attach(top, ports):
+            top.submodules.frontend = LiteDRAMWishbone2Native(bus, ports[0], base_address=base)
+        tb, sim, viol, dram = core_host(core, Violations, attach)
+        port = tb.ports[0]
+        assert port.data_width == pdw and tb.amap.aw == paw
+        mem = CorePortView(sim, tb, dram, port)
+    else:
+        port = LiteDRAMNativePort("both", paw, pdw)
+        dut = LiteDRAMWishbone2Native(bus, port, base_address=base)
+        sim = Sim(dut, {"sys": 10000})
+        viol = Violations(sim)
+        mem = NativeMemSlave(sim, port, cmd_ready=m.get("cmd_ready"), max_out=m.get("max_out", 8), wl1=m.get("wl1", 1),
+                             rl1=m.get("rl1", 3), extra=m.get("extra"), viol=None)
     # reference: byte address -> set of admissible values
     refset = {}
     woff = base // wnb
@@ -286,11 +297,15 @@ def run(scn):
     ops = scn["ops"]
     mas = WBMaster(sim, bus, ops, wnb, on_done, viol)
     sim.add_agent("sys", mas)
-    sim.add_agent("sys", mem)
+    if not core:
+        sim.add_agent("sys", mem)
     stall = sum(b for a, b in (m.get("cmd_ready") or [])) + 1
     ratio = max(1, wdw // pdw)
     cap = 500 + sum(o.get("gap", 0) for o in ops) + len(ops) * (ratio * (stall + 6) + max(m.get("extra") or [0]) + m.get("rl1", 3) + 12)
     need_quiet = 60 + max([b for a, b in (m.get("cmd_ready") or [])] or [0]) + max(m.get("extra") or [0]) + m.get("rl1", 3) + 8 * ratio
+    if core:
+        cap = 2 * cap + 3000 + 100 * ratio * len(ops)
+        need_quiet += 250
     cyc = 0
     quiet = 0
     while cyc < cap:
@@ -320,6 +335,7 @@ def run(scn):
             if ba // pnb not in mem.mem and init_byte(ba) not in refset[ba]:
                 viol.add("final_image", "byte 0x%x written over wishbone never reached memory" % ba)
                 break
+    stats["core_variant_runs"] = 1 if core else 0
     return {"violations": viol.v, "stats": stats, "cycles": cyc, "sim_ps": sim.now, "digest": sim.digest(),
             "nontrivial": stats["acks"] >= 2,
             "states": ["wb%d port%d" % (wdw, pdw)],
@@ -341,7 +357,16 @@ def gen(rng, tier, index):
         return {"variant": "n2w", "dut": {"dw": dw, "base": rng.choice([0, 0x1000, 0x40000000])}, "master": {"ops": ops},
                 "lat": [rng.choice([0, 0, 1, 3, 10]) for _ in range(rng.randint(1, 6))]}
     k = rng.choice([-3, -2, -1, -1, 0, 0, 1, 1, 2, 3])       # log2(wb/port)
-    if k >= 0:
+    core = None
+    paw = 20
+    if rng.random() < 0.12:
+        from .. import coregen
+        core, info = coregen.gen_core(rng, nports=1, nranks=1)
+        pdw = info["data_bytes"] * 8
+        paw = coregen.amap_of(core, info).aw
+        k = rng.choice([kk for kk in (-3, -2, -1, 0, 1, 2) if 8 <= (pdw << kk if kk >= 0 else pdw >> -kk) <= 512])
+        wdw = pdw << k if k >= 0 else pdw >> -k
+    elif k >= 0:
         pdw = rng.choice([w for w in (8, 16, 32, 64) if w << k <= 512])
         wdw = pdw << k
     else:
@@ -349,7 +374,7 @@ def gen(rng, tier, index):
         pdw = wdw << (-k)
     wnb = wdw // 8
     base = rng.choice([0, 0, 0x1000, 0x40000000, 0x80000000])
-    d = {"wb_dw": wdw, "port_dw": pdw, "base": base, "paw": 20}
+    d = {"wb_dw": wdw, "port_dw": pdw, "base": base, "paw": paw}
     woff = base // wnb
     n = rng.choice([1, 2, 4, 8, 20, 50]) if tier == "quick" else rng.choice([2, 5, 15, 40, 100])
     ratio = max(1, pdw // wdw)
@@ -390,7 +415,11 @@ def gen(rng, tier, index):
             i += 1
     wl1 = rng.randint(1, 6)
     mem = {"cmd_ready": gen_pattern(rng), "max_out": rng.randint(3, 20), "wl1": wl1, "rl1": rng.randint(wl1 + 1, 14), "extra": gen_extra(rng)}
-    return {"dut": d, "mem": mem, "ops": ops}
+    scn = {"dut": d, "mem": mem, "ops": ops}
+    if core:
+        scn["core"] = core
+        scn["ops"] = ops[:40]
+    return scn
 
 
 def _gap(rng, gapm):
